@@ -1160,3 +1160,98 @@ def t_opt_pair_flags(facts, res, tier):
             res.fail(key, facts.where(fn, node), "optimize() deletes the %s of the pair %s without requiring `flags == FlagsState::%s`: the value is there, but the N/Z flags the deleted load would have set may be those of another register by now, and the next branch tests them" % (m.group(2), key.split(":")[1], reg))
     if n == 0:
         raise AnchorMissing("optimize(): no pair rule deleting a load found")
+
+
+# ----------------------------------------------------------------------------- signed constants turned into sizes
+
+
+def _sign_checked(e, doms):
+    t = _norm(strip(e))
+    for d in doms:
+        if d[0] == "cond" and d[2]:
+            for n in walk(d[1]):
+                if n.get("k") == "binary" and n["op"] in (">", ">=") and _norm(strip(n["l"])) == t and _int_lit(n["r"]) is not None and _int_lit(n["r"]) >= 0:
+                    return True
+        if d[0] == "cond" and not d[2]:
+            for n in walk(d[1]):
+                if n.get("k") == "binary" and n["op"] in ("<", "<=") and _norm(strip(n["l"])) == t and _int_lit(n["r"]) is not None and _int_lit(n["r"]) <= 0 and d[1] is n:
+                    return True
+    return False
+
+
+@rule("T-CAST-SIGN", floor=5,
+      text="a constant expression from the source becomes an unsigned quantity (an array size, an alignment, scatter parameters, the size hint of an "
+           "asm statement) only through a conversion that rejects negative values (try_from with the error reported) or under an enclosing "
+           "`> 0` / `>= 0` test: a bare `as usize` / `as u32` turns -1 into the largest size there is")
+def t_cast_sign(facts, res, tier):
+    n = 0
+    for fn in facts.fns:
+        if fn["file"].endswith("/cpp.rs") or "/tests/" in fn["file"]:
+            continue
+        for node, env, doms in scoped(fn):
+            if node.get("k") == "cast" and node["ty"].replace(" ", "") in ("usize", "u32", "u8", "u16", "u64"):
+                o = _const_origin(node["e"], env)
+                if not o or _int_lit(node["e"]) is not None:
+                    continue
+                # casting an already unsigned local (e.g. the usize returned by a checked conversion) is not a sign change
+                inner = strip(node["e"])
+                if isinstance(inner, dict) and inner.get("k") == "mcall" and inner["method"] not in CONST_SOURCES:
+                    continue
+                if isinstance(inner, dict) and inner.get("k") == "mcall" and inner["method"] in CONST_SOURCES and _returns_unsigned(facts, inner["method"]):
+                    continue
+                n += 1
+                key = "T-CAST-SIGN:%s:%s" % (fn["name"], _norm(node)[:40])
+                ok = _sign_checked(node["e"], doms)
+                res.inst(key, True, {"function": fn["name"], "cast": expr_text(node)[:60], "sign_tested": ok})
+                if not ok:
+                    res.fail(key, facts.where(fn, node), "%s converts the source constant `%s` to %s with `as`: a negative value becomes a huge size (`char t[-1];` is emitted as `ds 18446744073709551615`, a local overflows the stack frame computation)" % (fn["name"], expr_text(node["e"])[:50], node["ty"]))
+            if node.get("k") == "call" and _norm(node["func"]) in ("usize::try_from", "u32::try_from", "u16::try_from", "u8::try_from") and node.get("args") and _const_origin(node["args"][0], env):
+                n += 1
+                res.inst("T-CAST-SIGN:%s:%s" % (fn["name"], _norm(node)[:40]), True, {"function": fn["name"], "conversion": expr_text(node)[:60], "sign_tested": "try_from"})
+    if n == 0:
+        raise AnchorMissing("no conversion of a source constant to an unsigned type found")
+
+
+def _returns_unsigned(facts, name):
+    for f in facts.fns_named(name):
+        if re.match(r"^Result<(usize|u32|u16|u8),", f["ret"].replace(" ", "")):
+            return True
+    return False
+
+
+# ----------------------------------------------------------------------------- an inline body is complete when it is pasted
+
+
+@rule("T-INLINE-SELF", floor=1,
+      text="push_code pastes the recorded code of an inline function into the function being generated; the code of the function being generated "
+           "is itself incomplete, so push_code compares the two names and returns an error before it looks the body up: a self-call would "
+           "otherwise paste branches without their labels and check_branches panics on the missing label")
+def t_inline_self(facts, res, tier):
+    from genmodel import GEN_QUAL
+    fn = facts.fn("push_code", GEN_QUAL)
+    params = [p["name"] for p in fn["params"] if p.get("name") != "self" and "str" in (p.get("ty") or "")]
+    if not params:
+        raise AnchorMissing("push_code: name parameter not found")
+    f = params[0]
+    sc = scoped(fn)
+    lookup = None
+    for n, env, doms in sc:
+        if n.get("k") == "mcall" and n["method"] in ("get", "get_mut") and "functions_code" in _norm(n["recv"]) and n.get("args") and simple_name(n["args"][0]) == f:
+            lookup = (n, env, doms)
+            break
+    if lookup is None:
+        raise AnchorMissing("push_code: lookup of the pasted function's code not found")
+    n, env, doms = lookup
+    guarded = False
+    for d in doms:
+        if d[0] == "stmt" and d[1].get("k") == "if":
+            c = d[1]["cond"]
+            names = {x["segs"][0] for x in walk(c) if x.get("k") == "path" and len(x["segs"]) == 1}
+            cur = [nm for nm in names if nm != f and env.get(nm) is not None and env[nm].scrut is not None and "current_function" in _norm(env[nm].scrut)]
+            eq = any(x.get("k") == "binary" and x["op"] == "==" for x in walk(c))
+            leaves = any(x.get("k") == "return" for x in walk(d[1]["then"])) and "Err" in _norm(d[1]["then"])
+            if f in names and (cur or "current_function" in _norm(c)) and eq and leaves:
+                guarded = True
+    res.inst("T-INLINE-SELF:push_code", True, {"pasted": f, "self_call_rejected": guarded})
+    if not guarded:
+        res.fail("T-INLINE-SELF:push_code", facts.where(fn, n), "push_code looks up the code of `%s` without first refusing the function under construction: an inline function that calls itself pastes its own unfinished code (branches whose labels come later) and check_branches() panics with 'Label not found'" % f)
